@@ -223,6 +223,14 @@ Proof.
       * eapply regsame_trans; [apply regsame_notify_all|apply regsame_deliver_sys].
 Qed.
 
+Lemma ext_start_instance s u self parent s' o p : start_instance roles s u self parent = (s', o, p) -> ext s s'.
+Proof.
+  unfold start_instance. destruct (handle roles s u TRD 0 self) as [[s1 o1] p1] eqn:E1.
+  destruct (handle roles s1 u TL 0 parent) as [[s2 o2] p2] eqn:E2. intros H; inversion H; subst.
+  eapply ext_trans; [eapply ext_handle; exact E1|]. eapply ext_trans; [eapply ext_handle; exact E2|].
+  destruct p2; [apply ext_refl|apply ext_of_keep; [apply keep_upd_actor; kp|apply regsame_upd_actor]].
+Qed.
+
 Lemma ext_try_restarted s u snd s' o p : try_restarted roles s u snd = (s', o, p) -> ext s s'.
 Proof.
   intros Hr. pose proof (mono_try_restarted roles _ _ _ _ _ _ Hr) as M. revert Hr.
@@ -237,23 +245,18 @@ Proof.
     + pose proof (ext_trans _ _ _ (ext_handle _ _ _ _ _ _ _ _ E1) (ext_handle _ _ _ _ _ _ _ _ E2)) as X12.
       destruct (provide s2 (a_tok a)) as [s3 inst] eqn:Ep.
       assert (R3 : registry s3 = registry s2) by (unfold provide in Ep; inversion Ep; subst; reflexivity).
-      inversion H; subst. intros t' u' Hl.
-      rewrite !regsame_deliver_sys, regsame_upd_actor, R3 in Hl. destruct X12 as [_ X]. destruct (X t' u' Hl) as [Hold|(b & Hb & Htb)].
-      * left; exact Hold.
-      * right. (* carried through the remaining status-changing updates, which keep tokens *)
-        assert (K3 : keep s2 s3) by (apply keep_same_actors; unfold provide in Ep; inversion Ep; subst; reflexivity).
-        destruct (K3 _ _ Hb) as (b3 & Hb3 & _ & (I3 & _)).
-        set (s4 := upd_actor s3 u (fun b0 => w_st Alive (w_inst inst b0))).
-        assert (G4 : exists b4, get s4 u' = Some b4 /\ a_tok b4 = a_tok b3).
-        { unfold s4, upd_actor. destruct (get s3 u) as [au|] eqn:Eu; [|eauto].
-          destruct (Nat.eq_dec u u') as [->|Hne].
-          - rewrite Hb3 in Eu. inversion Eu; subst. eexists. split; [eapply get_put_same; exact Hb3|reflexivity].
-          - exists b3. split; [rewrite get_put_other by assumption; exact Hb3|reflexivity]. }
-        destruct G4 as (b4 & Hb4 & I4).
-        assert (K5 : keep s4 (deliver_sys (deliver_sys (deliver_sys s4 (a_tok a) (a_tok a) SResume) (a_tok a) (a_tok a) SRestarted)
-                                 (a_tok a) (a_parent a) SLaunch)).
-        { eapply keep_trans; [apply keep_deliver_sys|]. eapply keep_trans; [apply keep_deliver_sys|apply keep_deliver_sys]. }
-        destruct (K5 _ _ Hb4) as (b5 & Hb5 & _ & (I5 & _)). exists b5. split; [exact Hb5|congruence].
+      match type of H with context [start_instance ?r ?x ?y ?z ?w] => destruct (start_instance r x y z w) as [[s9 o9] p9] eqn:E9 end.
+      inversion H; subst.
+      assert (K3 : keep s2 s3) by (apply keep_same_actors; unfold provide in Ep; inversion Ep; subst; reflexivity).
+      assert (X23 : ext s2 s3) by (apply ext_of_keep; [exact K3|exact R3]).
+      assert (K02 : keep s s2) by (eapply keep_trans; [eapply keep_handle; exact E1|eapply keep_handle; exact E2]).
+      destruct (keep_status _ _ _ _ (keep_trans _ _ _ K02 K3) Ea) as (a3 & Ha3 & Hs3).
+      assert (X34 : ext s3 (upd_actor s3 u (fun b => w_st Alive (w_inst inst b)))).
+      { apply ext_of_mono; [|apply regsame_upd_actor]. eapply mono_upd_f; [exact Ha3|rewrite Hs3, Est; discriminate|intros b; repeat split]. }
+      assert (X45 : ext (upd_actor s3 u (fun b => w_st Alive (w_inst inst b)))
+                        (deliver_sys (upd_actor s3 u (fun b => w_st Alive (w_inst inst b))) (a_tok a) (a_tok a) SResume))
+        by (apply ext_of_keep; [apply keep_deliver_sys|apply regsame_deliver_sys]).
+      exact (proj2 (ext_trans _ _ _ X12 (ext_trans _ _ _ X23 (ext_trans _ _ _ X34 (ext_trans _ _ _ X45 (ext_start_instance _ _ _ _ _ _ _ E9)))))).
 Qed.
 
 Lemma ext_apply_directive s u r d snd s' o p : apply_directive roles s u r d snd = (s', o, p) -> ext s s'.
